@@ -11,3 +11,10 @@ package description
 //@   ensures[C12] err != nil ==> ret == nil
 //@   ensures[C20] err == nil ==> ret != nil
 //@   modifies fresh
+
+// Every media section is parsed into a fresh zero Media: what Media.Unmarshal leaves untouched (the
+// key-mgmt message, when the section has no key-mgmt attribute) is absent from the result instead
+// of being inherited from the section before it, so the parsed value depends on the SDP alone (C05).
+//@ func (d *Session) Unmarshal2
+//@   assert[C05]@call:Unmarshal#2 m.KeyMgmtMikey == nil && m.ID == "" && len(m.Formats) == 0
+//@   modifies *
